@@ -77,6 +77,9 @@ CHECKS = {
  "C25": ("E4 edgex", "exhaustive enumeration of edge sequences over boundary classes of the compact encoding, through read-only hook H1, in the default and the persistence configuration",
          "Every sequence of up to 2 (quick) / 3 (thorough) edges over 240 edge values (kind x ingredient {0,1,0xFFE,0xFFF,0x1000,0x7FFFFFFF} x index {0,1,2^31,max} x generation {0,1,0xFFFFF,0x100000,u32::MAX}) x origin kind x 5 combinations of extra revision data is stored through salsa's constructors: decoded edges equal the sequence in order, kind and key (forward and reverse), the input and output views partition it, attaching extra data later and clearing the edges preserve edges / extra data, and (persistence build) a serde round trip of the revisions decodes to the same edges and extra data.",
          "Hook H1 (cargo feature salsa_verif) only re-exports construction/decoding; no logic. Longer sequences are outside the bound.", "5/C25"),
+ "C26": (E1, "bounded-exhaustive history enumeration with a RoundTrip operation (serialize to JSON, deserialize into a fresh database, continue there) against the reference, the restored-memo monitor and a fresh-database differential",
+         "Ten programs over persisted inputs, interned values, tracked structs and functions (plus one with a non-persisted function between two persisted ones, whose dependencies must be flattened) x all histories of depth 4-5 over writes, requests and RoundTrip at every position: values equal the reference before and after every round trip; a result that was valid when the database was serialized is not re-executed afterwards while its inputs are unchanged; after any later writes the restored database still equals the reference and a fresh database. Genuine defects found: one repaired (fix: commit cc47c5f), two listed as known findings.",
+         "Bounded; salsa's persistence build (feature persistence) is the unit under test here.", "5/C26"),
 }
 
 NOT_YET = {}
